@@ -25,12 +25,11 @@ THEOREMS = ["C09_parse_print", "C09_print_stable", "C09_print_int_roundtrip", "C
             "C09_str_is_json", "C09_utf8_roundtrip", "C09_mangle_is_ascii_json", "C09_constructors_agree", "C09_file_roundtrip_partial",
             "C09_save_load_twice_partial", "C09_history_step_partial", "C09_history_cache_irrelevant_partial"]
 ALLOWED_AXIOMS = []
-RULE = ("codec: random JSON values (ints up to ~1200 digits, floats drawn from random bit patterns, subnormals, "
-        "extreme exponents, -0.0, NaN/Infinity; strings over control characters, quotes, backslashes, DEL, Latin-1, "
-        "BMP boundary code points and non-BMP code points; nested lists/dicts to depth 3 (quick) / 5 (thorough); weird and "
-        "empty keys), non-trivial = contains a container or an escape; loads: texts printed with random white space, "
-        "escape spellings, duplicate keys, then randomly damaged; ext: valid extensions of every shape class (3-D, 4-D, "
-        "5-D, singleton time) with such values in every classification, plus invalid extensions of eight kinds")
+RULE = ("codec (340 quick): random and hostile JSON values through CPython's json (model tie) and, as a constant of a minimal "
+        "extension, through the public DcmMeta API; loads (442): texts through CPython's json only - a tie of the Coq parser, NOT an "
+        "evaluation of dcmstack; ext (190) and ext_hist (96): extensions and edit/save/load histories in the real library, files "
+        "included, judged against content computed from the case alone. non-trivial = container/escape/big int (codec), a key in "
+        "some class or a refusal (ext), an edit that changes the content (ext_hist)")
 TRUSTED_BASE = [
     "Section variable `check_valid : jv -> res unit` in Json/Model.v (the validity check, modelled and proved in DV.Content for C10); "
     "in the ext correspondence it is instantiated with the implementation's own check_valid() outcome on that content",
@@ -46,8 +45,14 @@ ASSUMPTIONS = [
     "distinct, float tokens are lexemes of the JSON number grammar with a fraction or exponent, or NaN/Infinity/-Infinity",
     "integers are unbounded in the model; CPython refuses to print or parse more than 4300 digits (sys.set_int_max_str_digits), "
     "generators stay below 1300 digits",
-    "extension generator: values are JSON-representable Python values (no tuples, no non-string dict keys, no NaN: NaN is not "
-    "equal to itself so `==` of extensions fails although the bytes round-trip); key strings arbitrary non-surrogate text",
+    "extension generator: values are JSON-representable Python values (no tuples, no non-string dict keys); key strings arbitrary "
+    "non-surrogate text; NaN/Infinity occur as values and are compared with the harness's own structural equality (NaN equal to NaN); "
+    "the library's == is an additional clause only when the content holds no NaN",
+    "what is compared is what C09 states: content (keys, classes, values, order), byte-identity of RE-serialisation, str() == "
+    "to_json(); the layout of the JSON text (indent) and the byte form inside the file are not pinned (the file bytes must decode to "
+    "the content); refusals are judged raised / not raised",
+    "saving onto the path an image was loaded from is exercised for the extension only (all-zero voxel data; nibabel's lazy "
+    "proxy makes the VOXELS of an uncompressed file unreliable in that situation - outside C09)",
     "file half is labelled partial: nibabel/gzip I/O is a hypothesis of the theorem, exercised by the correspondence only",
 ]
 
@@ -388,7 +393,9 @@ class Codec:
     CORR_SHOW = "Corr.show_codec"
     SHARD = 24
     IMPL_TIMEOUT = 20
-    RULE = "random JSON values; observation = exact json.dumps(indent=4) text; model must print the same text and parse it back"
+    RULE = ("random JSON values; observation = exact text of CPython's json.dumps(indent=4) (ties the Coq printer/parser to the "
+            "stdlib codec: this half does not go through dcmstack) AND the same value carried as a constant of a minimal extension "
+            "through DcmMetaExtension.from_runtime_repr / to_json / from_json(str) / from_json(bytes) / get_values")
 
     @staticmethod
     def gen_cases(rng, tier):
@@ -436,7 +443,24 @@ class Codec:
         text = json.dumps(v, indent=4)
         back = json.loads(text, object_pairs_hook=OrderedDict)
         again = json.dumps(back, indent=4)
-        return {'text': text, 'same': same(v, back), 'redump_same': again == text}
+        obs = {'text': text, 'same': same(v, back), 'redump_same': again == text}
+        # the same value as a constant of a minimal extension, through the public DcmMeta API (str and bytes constructors)
+        import copy
+        from dcmstack.dcmmeta import DcmMetaExtension
+        content = OrderedDict([('global', OrderedDict([('const', OrderedDict([('v', copy.deepcopy(v))])), ('slices', OrderedDict())])),
+                               ('dcmmeta_shape', [1, 1, 1]),
+                               ('dcmmeta_affine', [[1.0, 0.0, 0.0, 0.0], [0.0, 1.0, 0.0, 0.0], [0.0, 0.0, 1.0, 0.0], [0.0, 0.0, 0.0, 1.0]]),
+                               ('dcmmeta_reorient_transform', None), ('dcmmeta_slice_dim', None), ('dcmmeta_version', 0.6)])
+        try:
+            ext = DcmMetaExtension.from_runtime_repr(content)
+            t1 = ext.to_json()
+            e2 = DcmMetaExtension.from_json(t1)
+            e3 = DcmMetaExtension.from_json(t1.encode('utf-8'))
+            obs['ext_same'] = same(e2.get_values('v'), v) and same(e3.get_values('v'), v)
+            obs['ext_reser'] = e2.to_json() == t1 and e3.to_json() == t1 and str(ext) == t1
+        except Exception as e:
+            obs['ext_err'] = type(e).__name__
+        return obs
 
     @staticmethod
     def coq_case(case, obs):
@@ -452,11 +476,17 @@ class Codec:
             return 'json text does not read back to the same value (types, key order, float bits)'
         if not obs.get('redump_same'):
             return 're-serialised JSON differs from the first serialisation'
+        if 'ext_err' in obs:
+            return 'extension: a minimal extension holding the value as a constant could not be serialised and reloaded: %s' % obs['ext_err']
+        if not obs.get('ext_same'):
+            return 'extension-value: the value does not survive to_json/from_json as a constant of an extension (types, key order, float bits)'
+        if not obs.get('ext_reser'):
+            return 'extension-text: re-serialised JSON / str() of the extension holding the value is not byte-identical'
         return None
 
     @staticmethod
     def signature(case, obs, msg):
-        return 'codec/' + msg.split(' ')[0]
+        return 'codec/' + msg.split(' ')[0].rstrip(':')
 
     @staticmethod
     def nontrivial(case, obs):
@@ -567,7 +597,7 @@ class Loads:
     CORR_SHOW = "Corr.show_loads"
     SHARD = 30
     IMPL_TIMEOUT = 20
-    RULE = ("texts with random white space / escape spellings / duplicate keys / non-canonical float lexemes, hand-written corner "
+    RULE = ("(model tie only: CPython's json, not dcmstack, is what runs here) texts with random white space / escape spellings / duplicate keys / non-canonical float lexemes, hand-written corner "
             "cases and randomly damaged texts; observation = json.loads result with float lexemes kept verbatim "
             "(parse_float/parse_constant hooks) or JSONDecodeError")
 
@@ -607,7 +637,13 @@ class Loads:
             v = json.loads(text, object_pairs_hook=OrderedDict, parse_float=Tok, parse_constant=Tok)
         except json.JSONDecodeError:
             return {'err': 'EValue'}
-        return {'res': enc(v)}
+        obs = {'res': enc(v)}
+        # what was read re-serialises to a text that reads back to the same value and re-serialises identically
+        plain = json.loads(text, object_pairs_hook=OrderedDict)
+        t1 = json.dumps(plain, indent=4)
+        back = json.loads(t1, object_pairs_hook=OrderedDict)
+        obs['stable'] = same(plain, back) and json.dumps(back, indent=4) == t1
+        return obs
 
     @staticmethod
     def coq_case(case, obs):
@@ -621,7 +657,11 @@ class Loads:
 
     @staticmethod
     def oracle(case, obs):
-        return None       # the property says nothing about arbitrary texts; this part only ties the parser model
+        # the property says nothing about which texts are accepted (that is the model correspondence); what it does say
+        # applies to every value that was read: it re-serialises to a text that reads back exactly
+        if isinstance(obs, dict) and 'res' in obs and not obs.get('stable'):
+            return 'a value read from a text does not survive json.dumps/json.loads'
+        return None
 
     @staticmethod
     def signature(case, obs, msg):
@@ -633,10 +673,19 @@ class Loads:
 
 
 # ------------------------------------------------------------------------------------------------
-# part 3: extensions
+# part 3: extensions  (machinery shared by the parts ext and ext_hist)
+#
+# Ground truth.  The expected content of every extension is computed from the CASE alone (truth_initial, apply_edit_truth,
+# truth_valid below: the documented DcmMeta format, no call into the library).  The content of the live object is
+# snapshotted BEFORE any serialisation call; clause build/truth compares it with the generator's truth, and every later
+# comparison (texts parsed with the stdlib json, file bytes parsed out of the file, reloaded extensions) is against
+# that snapshot, with this module's own structural comparison `same` (types, float bits, order, NaN equal to NaN).
 
 CLASSES = [('global', 'const'), ('global', 'slices'), ('time', 'samples'), ('time', 'slices'),
            ('vector', 'samples'), ('vector', 'slices')]
+REQUIRED = {0.5: ['dcmmeta_affine', 'dcmmeta_slice_dim', 'dcmmeta_shape', 'dcmmeta_version', 'global'],
+            0.6: ['dcmmeta_affine', 'dcmmeta_reorient_transform', 'dcmmeta_slice_dim', 'dcmmeta_shape', 'dcmmeta_version', 'global']}
+DCMMETA_ECODE = 0
 
 
 def valid_classes(shape):
@@ -671,8 +720,137 @@ def multiplicity(shape, slice_dim, cls):
     return shape[4]
 
 
+class Harness(Exception):
+    """the harness itself cannot observe (not a verdict about the property)"""
+
+
+def ks(cps):
+    return ''.join(chr(c) for c in cps)
+
+
+def content_of(ext):
+    """The runtime dictionary of an extension: through the public accessor, with ONE fallback to the attribute."""
+    try:
+        c = ext.get_content()
+        if hasattr(c, 'items'):
+            return c
+    except (AttributeError, TypeError):
+        pass
+    c = getattr(ext, '_content', None)
+    if hasattr(c, 'items'):
+        return c
+    raise Harness('cannot read the content dictionary of a DcmMetaExtension')
+
+
+def same_unordered(a, b):
+    """`same`, except that dictionaries are compared as maps"""
+    if hasattr(a, 'items') and hasattr(b, 'items'):
+        return (len(a) == len(b) and all(isinstance(k, str) and k in b and same_unordered(v, b[k]) for k, v in a.items()))
+    if isinstance(a, list) and isinstance(b, list):
+        return len(a) == len(b) and all(same_unordered(x, y) for x, y in zip(a, b))
+    if hasattr(a, 'items') or hasattr(b, 'items') or isinstance(a, list) or isinstance(b, list):
+        return False
+    return same(a, b)
+
+
+def matrix_of(hexrows):
+    return None if hexrows is None else [[float.fromhex(x) for x in row] for row in hexrows]
+
+
+def truth_initial(case):
+    """the content dictionary the documented format prescribes for this case (generator truth)"""
+    from collections import OrderedDict
+    shape = list(case['shape'])
+
+    def base():
+        return OrderedDict([('samples', OrderedDict()), ('slices', OrderedDict())])
+    t = OrderedDict()
+    t['global'] = OrderedDict([('const', OrderedDict()), ('slices', OrderedDict())])
+    if len(shape) == 4 or (len(shape) > 4 and shape[3] != 1):
+        t['time'] = base()
+    if len(shape) > 4:
+        t['vector'] = base()
+    t['dcmmeta_shape'] = shape
+    t['dcmmeta_affine'] = matrix_of(case['affine'])
+    t['dcmmeta_reorient_transform'] = matrix_of(case['reorient'])
+    t['dcmmeta_slice_dim'] = case['slice_dim']
+    t['dcmmeta_version'] = 0.6
+    for b, s, k, v in case['entries']:
+        t[b][s][ks(k)] = dec(v)
+    for k, v in case.get('extra', []):
+        t[ks(k)] = dec(v)
+    for b, subs in case.get('stale', []):
+        t[b] = OrderedDict((sn, OrderedDict((ks(k), dec(v)) for k, v in ents)) for sn, ents in subs)
+    if case.get('version') == 0.5:
+        t['dcmmeta_version'] = 0.5
+        del t['dcmmeta_reorient_transform']
+    return t
+
+
+def truth_valid(t):
+    """the validity rules of the format, on a content dictionary (generator side)"""
+    req = REQUIRED.get(t.get('dcmmeta_version'))
+    if req is None or any(k not in t for k in req):
+        return False
+    aff, sd, shape = t['dcmmeta_affine'], t['dcmmeta_slice_dim'], t['dcmmeta_shape']
+    if not (isinstance(aff, list) and len(aff) == 4 and all(isinstance(r, list) and len(r) == 4 for r in aff)):
+        return False
+    if sd is not None and not (isinstance(sd, int) and 0 <= sd < 3):
+        return False
+    if not (isinstance(shape, list) and 3 <= len(shape) < 6):
+        return False
+    seen = set()
+    for b, s in valid_classes(shape):
+        if b not in t or not hasattr(t[b], 'items') or s not in t[b]:
+            return False
+        d = t[b][s]
+        m = multiplicity(shape, sd, (b, s))
+        if m == 0 and len(d) != 0:
+            return False
+        if m > 1 and any(not isinstance(v, (list, str)) or len(v) != m for v in d.values()):
+            return False
+        if seen & set(d):
+            return False
+        seen |= set(d)
+    return True
+
+
+def match_truth(content, truth):
+    """content == truth: the top level and the base dictionaries as maps (their order is the implementation's business and
+    is what every reload is then held to), the class dictionaries and all values exactly, in order"""
+    if not hasattr(content, 'items') or set(content.keys()) != set(truth.keys()) or len(content) != len(truth):
+        return False
+    for k, b in truth.items():
+        a = content[k]
+        if k in ('global', 'time', 'vector') and hasattr(b, 'items'):
+            if not hasattr(a, 'items') or set(a.keys()) != set(b.keys()) or len(a) != len(b):
+                return False
+            if not all(same(a[s], b[s]) for s in b):
+                return False
+        elif not same(a, b):
+            return False
+    return True
+
+
+def errname(e):
+    """class of an exception for the diagnostics (never compared: refusals are judged raised / not raised)"""
+    for cls, name in ((ValueError, 'ValueError'), (KeyError, 'KeyError'), (TypeError, 'TypeError'),
+                      (AttributeError, 'AttributeError'), (IndexError, 'IndexError'), (OSError, 'OSError')):
+        if isinstance(e, cls):
+            return name
+    try:
+        from dcmstack.dcmmeta import InvalidExtensionError, MissingExtensionError
+        if isinstance(e, InvalidExtensionError):
+            return 'InvalidExtensionError'
+        if isinstance(e, MissingExtensionError):
+            return 'MissingExtensionError'
+    except ImportError:
+        pass
+    return 'Exception'
+
+
 CORRUPTIONS = ['del_req', 'bad_count', 'dup_key', 'slice_dim_bad', 'shape_len', 'affine_shape', 'slices_without_dim', 'missing_sub']
-PATHS = ['json', 'runtime', 'nii', 'nii2', 'niigz', 'niigz2']
+FORMATS = {'nii': '.nii', 'niigz': '.nii.gz', 'pair': '.img'}
 
 
 def gen_affine(rng):
@@ -684,6 +862,10 @@ def gen_affine(rng):
         m = [[x if abs(x) < 1e30 else 1.5 for x in row] for row in m]
         m.append([0.0, 0.0, 0.0, 1.0])
     return [[x.hex() for x in row] for row in m]
+
+
+TOP_NAMES = ('global', 'time', 'vector', 'dcmmeta_shape', 'dcmmeta_affine', 'dcmmeta_reorient_transform', 'dcmmeta_slice_dim',
+             'dcmmeta_version')
 
 
 def gen_ext_case(rng, depth, corrupt=None, hostile=False):
@@ -713,35 +895,71 @@ def gen_ext_case(rng, depth, corrupt=None, hostile=False):
     rng.shuffle(entries)
     extra = []
     if rng.random() < 0.25:
-        for k in gen_keys(rng, rng.choice([1, 2]), taken | {tuple(map(ord, s)) for s in
-                                                            ('global', 'time', 'vector', 'dcmmeta_shape', 'dcmmeta_affine',
-                                                             'dcmmeta_reorient_transform', 'dcmmeta_slice_dim', 'dcmmeta_version')},
-                          strgen):
+        for k in gen_keys(rng, rng.choice([1, 2]), taken | {tuple(map(ord, s)) for s in TOP_NAMES}, strgen):
             extra.append([k, gen_value(rng, 1, nonfin, 2, strgen)])
-    return {'kind': ('invalid/' + corrupt) if corrupt else ('hostile%dd' % nd if hostile else 'valid%dd' % nd), 'shape': shape, 'slice_dim': slice_dim,
-            'affine': gen_affine(rng), 'reorient': gen_affine(rng) if rng.random() < 0.5 else None,
-            'entries': entries, 'extra': extra, 'corrupt': corrupt, 'csel': rng.randrange(1000)}
+    # stale class dictionaries: a base dictionary the shape does not call for (left behind by an earlier, larger shape)
+    stale = []
+    if not corrupt and rng.random() < 0.3:
+        vb = {c[0] for c in valid_classes(shape)}
+        for b in ('time', 'vector'):
+            if b not in vb and not (b == 'time' and (nd == 4 or (nd > 4 and shape[3] != 1))) and not (b == 'vector' and nd > 4):
+                subs = []
+                for sn in ('samples', 'slices'):
+                    ents = [[k, gen_value(rng, 1, nonfin, 2, strgen)] for k in gen_keys(rng, rng.choice([0, 1, 2]), None, strgen)]
+                    subs.append([sn, ents])
+                stale.append([b, subs])
+    version = 0.6
+    reorient = gen_affine(rng) if rng.random() < 0.5 else None
+    if not corrupt and rng.random() < 0.15:
+        version, reorient = 0.5, None
+    kind = ('invalid/' + corrupt) if corrupt else (('hostile%dd' if hostile else 'valid%dd') % nd)
+    if version == 0.5:
+        kind += '/v0.5'
+    if stale:
+        kind += '/stale'
+    return {'kind': kind, 'shape': shape, 'slice_dim': slice_dim, 'affine': gen_affine(rng), 'reorient': reorient,
+            'entries': entries, 'extra': extra, 'stale': stale, 'version': version, 'corrupt': corrupt,
+            'csel': rng.randrange(1000),
+            'build': 'make_empty' if corrupt else rng.choice(['make_empty', 'make_empty', 'runtime', 'json']),
+            'endian': '>' if rng.random() < 0.2 else '<',
+            'foreign': rng.choice([None, None, None, 'before', 'after', 'both']),
+            'formats': ['nii', 'niigz'] + (['pair'] if rng.random() < 0.25 else []),
+            'cycles': rng.choice([1, 2, 2, 3, 4]),
+            'same_path': rng.random() < 0.3}
 
 
 def build_ext(case):
+    import copy
     import numpy as np
     from dcmstack.dcmmeta import DcmMetaExtension
-    shape = tuple(case['shape'])
-    aff = np.array([[float.fromhex(x) for x in row] for row in case['affine']])
-    reo = None if case['reorient'] is None else np.array([[float.fromhex(x) for x in row] for row in case['reorient']])
-    ext = DcmMetaExtension.make_empty(shape, aff, reo, case['slice_dim'])
-    for base, sub, k, v in case['entries']:
-        ext.get_class_dict((base, sub))[''.join(chr(c) for c in k)] = dec(v)
-    for k, v in case.get('extra', []):
-        ext._content[''.join(chr(c) for c in k)] = dec(v)
+    build = case.get('build', 'make_empty')
+    if build == 'runtime':
+        ext = DcmMetaExtension.from_runtime_repr(copy.deepcopy(truth_initial(case)))
+    elif build == 'json':
+        ext = DcmMetaExtension.from_json(json.dumps(truth_initial(case)))      # compact stdlib text of the truth
+    else:
+        aff = np.array(matrix_of(case['affine']))
+        reo = None if case['reorient'] is None else np.array(matrix_of(case['reorient']))
+        ext = DcmMetaExtension.make_empty(tuple(case['shape']), aff, reo, case['slice_dim'])
+        for base, sub, k, v in case['entries']:
+            ext.get_class_dict((base, sub))[ks(k)] = dec(v)
+        content = content_of(ext)
+        for k, v in case.get('extra', []):
+            content[ks(k)] = dec(v)
+        from collections import OrderedDict
+        for b, subs in case.get('stale', []):
+            content[b] = OrderedDict((sn, OrderedDict((ks(k), dec(v)) for k, v in ents)) for sn, ents in subs)
+        if case.get('version') == 0.5:
+            ext.version = 0.5
+            del content['dcmmeta_reorient_transform']
     c = case.get('corrupt')
     if c:
-        corrupt_ext(ext, case, c)
+        corrupt_content(content_of(ext), case, c)
     return ext
 
 
-def corrupt_ext(ext, case, c):
-    content = ext._content
+def corrupt_content(content, case, c):
+    """one corruption of a content dictionary (applied to the live object and, identically, to the generator's truth)"""
     sel = case.get('csel', 0)
     shape, sd = case['shape'], case['slice_dim']
     vcs = valid_classes(shape)
@@ -750,15 +968,15 @@ def corrupt_ext(ext, case, c):
         if cands:
             cl = cands[sel % len(cands)]
             m = multiplicity(shape, sd, cl)
-            ext.get_class_dict(cl)['badcount'] = [0] * (m + 1 if sel % 2 else m - 1)
+            content[cl[0]][cl[1]]['badcount'] = [0] * (m + 1 if sel % 2 else m - 1)
             return
         c = 'slice_dim_bad'
     if c == 'dup_key':
         cands = [cl for cl in vcs if multiplicity(shape, sd, cl) >= 1]
         if len(cands) >= 2:
             a, b = cands[sel % len(cands)], cands[(sel + 1) % len(cands)]
-            ext.get_class_dict(a)['dup'] = [1] * multiplicity(shape, sd, a) if a[1] != 'const' else 1
-            ext.get_class_dict(b)['dup'] = [1] * multiplicity(shape, sd, b) if b[1] != 'const' else 1
+            content[a[0]][a[1]]['dup'] = [1] * multiplicity(shape, sd, a) if a[1] != 'const' else 1
+            content[b[0]][b[1]]['dup'] = [1] * multiplicity(shape, sd, b) if b[1] != 'const' else 1
             return
         c = 'slice_dim_bad'
     if c == 'del_req':
@@ -777,23 +995,195 @@ def corrupt_ext(ext, case, c):
         del content[base[0]][base[1]]
 
 
-ERRMAP = {'InvalidExtensionError': 'EInvalidExt', 'ValueError': 'EValue', 'KeyError': 'EKey', 'TypeError': 'EType',
-          'AttributeError': 'EAttr', 'IndexError': 'EIndex', 'MissingExtensionError': 'EMissingExt', 'JSONDecodeError': 'EValue'}
+def truth_of_case(case):
+    t = truth_initial(case)
+    if case.get('corrupt'):
+        corrupt_content(t, case, case['corrupt'])
+    return t
 
 
-def errname(e):
-    return ERRMAP.get(type(e).__name__, 'ECrash:' + type(e).__name__)
+def make_image(case, ext):
+    """an image of the case's shape carrying `ext` (and, optionally, extensions that are not ours); little or big endian;
+    single file or header/image pair"""
+    import numpy as np
+    import nibabel as nb
+    from nibabel.nifti1 import Nifti1Extension
+
+    def build(cls):
+        hdr = cls.header_class(endianness='>') if case.get('endian') == '>' else None
+        img = cls(np.zeros(tuple(case['shape']), dtype=np.int16), np.array(matrix_of(case['affine'])), header=hdr)
+        f = case.get('foreign')
+        if f in ('before', 'both'):
+            img.header.extensions.append(Nifti1Extension('comment', b'{"not": "a dcmmeta extension"}'))
+        img.header.extensions.append(ext)
+        if f in ('after', 'both'):
+            img.header.extensions.append(Nifti1Extension('afni', b'<AFNI_attributes/>'))
+        return img
+    return build
 
 
-def key_orders(content):
-    out = [list(content.keys())]
-    for b in ('global', 'time', 'vector'):
-        if b in content and hasattr(content[b], 'items'):
-            out.append(list(content[b].keys()))
-            for s in content[b]:
-                if hasattr(content[b][s], 'keys'):
-                    out.append(list(content[b][s].keys()))
+def file_ext_bytes(path):
+    """The extension section of a NIfTI-1 file (single file, or the .hdr of a pair), parsed from the raw bytes with no
+    nibabel object involved: list of (ecode, content with the zero padding removed)."""
+    import gzip, struct
+    if path.endswith('.img'):
+        path = path[:-4] + '.hdr'
+    with (gzip.open(path, 'rb') if path.endswith('.gz') else open(path, 'rb')) as f:
+        data = f.read()
+    en = '<' if struct.unpack('<i', data[:4])[0] == 348 else '>'
+    single = data[344:347] == b'n+1'
+    limit = int(struct.unpack(en + 'f', data[108:112])[0]) if single else len(data)
+    out = []
+    if len(data) < 352 or data[348] == 0:
+        return out
+    pos = 352
+    while pos + 8 <= limit:
+        esize, ecode = struct.unpack(en + 'ii', data[pos:pos + 8])
+        if esize < 8 or pos + esize > len(data):
+            break
+        out.append((ecode, data[pos + 8:pos + esize].rstrip(b'\x00')))
+        pos += esize
     return out
+
+
+def observe_file(path, snapshot):
+    """what the file holds, judged without the library: number of DcmMeta extensions, their bytes, and whether those bytes
+    (utf-8, JSON read with the stdlib) are exactly the snapshot"""
+    from collections import OrderedDict
+    exts = [c for code, c in file_ext_bytes(path) if code == DCMMETA_ECODE]
+    r = {'n_ext': len(exts), 'file': exts[0].decode('latin-1') if exts else None, 'file_same': False}
+    if len(exts) == 1:
+        try:
+            r['file_same'] = same(json.loads(exts[0].decode('utf-8'), object_pairs_hook=OrderedDict), snapshot)
+        except ValueError:
+            pass
+    return r
+
+
+def observe_ext(e2, snapshot, ref_ext=None):
+    """a reloaded extension against the snapshot of the original content"""
+    c2 = content_of(e2)
+    r = {'same': same(c2, snapshot), 'same_unordered': same_unordered(c2, snapshot)}
+    if not r['same']:
+        r['content'] = enc(c2)
+    if ref_ext is not None:
+        try:
+            r['eq'] = bool(e2 == ref_ext) and bool(ref_ext == e2)
+        except Exception as e:
+            r['eq'] = False
+            r['eq_err'] = errname(e)
+    try:
+        t2 = e2.to_json()
+        r['reser'] = t2 if isinstance(t2, str) else None
+    except Exception as e:
+        r['reser_err'] = errname(e)
+    try:
+        r['str_is_json'] = str(e2) == r.get('reser')
+    except Exception as e:
+        r['str_is_json'] = False
+    return r
+
+
+def serial_obs(ext, out):
+    """check_valid / to_json / str of a live extension, into `out`; returns the JSON text or None"""
+    try:
+        ext.check_valid()
+        out['valid'] = 'ok'
+    except Exception as e:
+        out['valid'] = errname(e)
+    text = None
+    try:
+        text = ext.to_json()
+        out['to_json'] = {'ok': text} if isinstance(text, str) else {'err': 'not-a-str'}
+        if not isinstance(text, str):
+            text = None
+    except Exception as e:
+        out['to_json'] = {'err': errname(e)}
+    try:
+        s = str(ext)
+        out['str'] = {'ok': s}
+    except Exception as e:
+        out['str'] = {'err': errname(e)}
+    return text
+
+
+def judge_serial(o, snapshot_tv, expect_valid, where=''):
+    """clauses about to_json/str of one observed state; snapshot_tv is the content taken before the calls"""
+    from collections import OrderedDict
+    msgs = []
+    tj = o['to_json']
+    if (o['valid'] == 'ok') != expect_valid:
+        msgs.append('[%svalid/expected] check_valid says %s for a content the format rules make %s'
+                    % (where, o['valid'], 'valid' if expect_valid else 'invalid'))
+    if not expect_valid:
+        if 'ok' in tj:
+            msgs.append('[%sto_json/invalid-accepted] to_json serialised an invalid extension' % where)
+        return msgs
+    if 'ok' not in tj:
+        msgs.append('[%sto_json/raised] to_json failed on a valid extension: %s' % (where, tj['err']))
+        return msgs
+    text = tj['ok']
+    try:
+        back = json.loads(text, object_pairs_hook=OrderedDict)
+        snap = dec(snapshot_tv)
+        if not same(back, snap):
+            msgs.append('[%sto_json/%s] the JSON text does not read back (stdlib json) to the content of the extension'
+                        % (where, 'order' if same_unordered(back, snap) else 'content'))
+    except ValueError:
+        msgs.append('[%sto_json/not-json] to_json did not return JSON' % where)
+    if not o.get('post_same'):
+        msgs.append('[%sto_json/inplace] serialising changed the content of the extension in place' % where)
+    if o['str'].get('ok') != text:
+        msgs.append('[%sstr/is-json] str(ext) is not the JSON of the extension: %s' % (where, o['str'].get('err') or 'different text'))
+    return msgs
+
+
+def judge_reload(r, text, has_nan, where):
+    msgs = []
+    if r is None or 'err' in r:
+        return ['[%s/raised] reload failed: %s' % (where, (r or {}).get('err'))]
+    if not r.get('same'):
+        msgs.append('[%s/%s] reloaded extension differs from the original content (%s)'
+                    % (where, 'order' if r.get('same_unordered') else 'content',
+                       'key order' if r.get('same_unordered') else 'keys, classes, types, values or float bits'))
+    if 'eq' in r and not r['eq'] and not has_nan and r.get('same'):
+        msgs.append('[%s/eq] reloaded extension has the same content but is not == to the original' % where)
+    if r.get('reser') != text:
+        msgs.append('[%s/reser] re-serialised JSON is not byte-identical' % where)
+    if not r.get('str_is_json'):
+        msgs.append('[%s/str] str() of the reloaded extension is not its JSON' % where)
+    if 'n_ext' in r:
+        if r['n_ext'] != 1:
+            msgs.append('[%s/file-count] the file holds %s DcmMeta extensions' % (where, r['n_ext']))
+        elif not r.get('file_same'):
+            msgs.append('[%s/file-content] the extension bytes in the file do not decode (utf-8, JSON) to the content' % where)
+    return msgs
+
+
+def msg_id(msg):
+    return msg[1:msg.index(']')] if msg.startswith('[') and ']' in msg else 'other'
+
+
+def lit_shared():
+    """let-bound sharing of identical texts / values inside one case literal"""
+    names, binds = {}, []
+
+    def share(key, lit):
+        if key not in names:
+            names[key] = 'x%d' % len(names)
+            binds.append('let %s := %s in ' % (names[key], lit))
+        return names[key]
+
+    def text(s):
+        return share('T' + s, ctext(s)) if isinstance(s, str) else '[0]%N'
+
+    def val(tv):
+        return share('V' + json.dumps(tv), tv_coq(tv))
+    return binds, text, val
+
+
+def coq_res_unit(v):
+    return 'Ok tt' if v == 'ok' else 'Err EInvalidExt'       # compared as raised / not raised only
 
 
 class Ext:
@@ -804,9 +1194,13 @@ class Ext:
     CORR_SHOW = "Corr.show_ext"
     SHARD = 10
     IMPL_TIMEOUT = 60
-    RULE = ("DcmMetaExtension.make_empty + values in every valid classification; observation = to_json text, str(ext), and for each of "
-            "from_json / from_runtime_repr / .nii / .nii.gz (once and twice): ==, exact ordered equality with float bits, key "
-            "order, re-serialised bytes; invalid extensions: to_json must raise InvalidExtensionError")
+    RULE = ("valid DcmMetaExtensions of every shape class, version 0.6 and 0.5, with and without stale base dictionaries and "
+            "extra top-level keys, built by make_empty + API, by from_runtime_repr or by from_json of the generator's truth; "
+            "expected content computed from the case alone; observed: content before any call, to_json, str, content after, "
+            "and reloads through from_json(str), from_json(bytes), from_runtime_repr and 1-4 save/load cycles through .nii, "
+            ".nii.gz (sometimes a .hdr/.img pair; little/big endian; other extensions beside ours; saving onto the loaded "
+            "path): own structural comparison (NaN equal to NaN), bytes of re-serialisation, and the extension bytes parsed out "
+            "of the file read with the stdlib json; invalid extensions: to_json and to_filename must refuse (any exception)")
 
     @staticmethod
     def gen_cases(rng, tier):
@@ -821,163 +1215,148 @@ class Ext:
     @staticmethod
     def run_impl(case):
         import copy, shutil, tempfile
-        import numpy as np
         import nibabel as nb
         from dcmstack.dcmmeta import DcmMetaExtension, NiftiWrapper
-        ext = build_ext(case)
-        obs = {'content': enc(ext._content)}
-        try:
-            ext.check_valid()
-            obs['valid'] = 'ok'
-        except Exception as e:
-            obs['valid'] = errname(e)
-        try:
-            text = ext.to_json()
-            obs['to_json'] = {'ok': text} if isinstance(text, str) else {'err': 'ECrash:not-a-str'}
-        except Exception as e:
-            text = None
-            obs['to_json'] = {'err': errname(e)}
-        try:
-            s = str(ext)
-            obs['str'] = {'ok': s}
-        except Exception as e:
-            obs['str'] = {'err': errname(e)}
-        obs['paths'] = {}
-        if text is None:
-            return obs
-        orig = copy.deepcopy(ext._content)
-
-        def observe(e2):
-            r = {}
-            r['eq'] = bool(e2 == ext) and bool(ext == e2)
-            r['exact'] = same(e2._content, orig)
-            r['order'] = key_orders(e2._content) == key_orders(orig)
-            try:
-                t2 = e2.to_json()
-                r['reser'] = t2
-            except Exception as e:
-                r['reser_err'] = errname(e)
-            try:
-                r['str_is_json'] = str(e2) == r.get('reser')
-            except Exception as e:
-                r['str_is_json'] = False
-            return r
-
-        def attempt(name, f):
-            try:
-                obs['paths'][name] = observe(f())
-            except Exception as e:
-                obs['paths'][name] = {'err': errname(e), 'msg': str(e)[:200]}
-
-        attempt('json', lambda: DcmMetaExtension.from_json(text))
-        attempt('runtime', lambda: DcmMetaExtension.from_runtime_repr(copy.deepcopy(orig)))
-        base = os.environ.get('VERIF_WORK') or os.path.join('/verif', 'work')
+        base = os.environ.get('VERIF_WORK') or os.path.join('/verif', 'work', 'c09_manual')
         os.makedirs(base, exist_ok=True)
         tmp = tempfile.mkdtemp(prefix='c09_', dir=base)
         try:
-            for suffix, tag in (('.nii', 'nii'), ('.nii.gz', 'niigz')):
-                state = {}
+            ext = build_ext(dict(case, corrupt=None))
+            nw_bad = None
+            if case.get('corrupt'):
+                nw_bad = NiftiWrapper(make_image(case, ext)(nb.Nifti1Image))     # wrapped while still valid
+                corrupt_content(content_of(ext), case, case['corrupt'])
+            snapshot = copy.deepcopy(content_of(ext))            # BEFORE any serialisation call
+            obs = {'pre': enc(snapshot)}
+            text = serial_obs(ext, obs)
+            obs['post_same'] = same(content_of(ext), snapshot)
+            obs['paths'] = {}
+            if nw_bad is not None:
+                p = os.path.join(tmp, 'invalid.nii')
+                try:
+                    nw_bad.to_filename(p)
+                    obs['save'] = 'ok'
+                except Exception as e:
+                    obs['save'] = errname(e)
+                obs['written'] = os.path.exists(p)
+                return obs
+            if text is None:
+                return obs
 
-                def first():
-                    img = nb.Nifti1Image(np.zeros(tuple(case['shape']), dtype=np.int16), np.array(ext.affine))
-                    img.header.extensions.append(ext)
-                    nw = NiftiWrapper(img)
-                    p1 = os.path.join(tmp, 'a' + suffix)
-                    nw.to_filename(p1)
-                    state['p1'] = p1
-                    state['nw2'] = NiftiWrapper.from_filename(p1)
-                    return state['nw2'].meta_ext
+            def attempt(name, f):
+                try:
+                    obs['paths'][name] = f()
+                    return True
+                except Harness:
+                    raise
+                except Exception as e:
+                    obs['paths'][name] = {'err': errname(e), 'msg': str(e)[:200]}
+                    return False
 
-                def second():
-                    p2 = os.path.join(tmp, 'b' + suffix)
-                    state['nw2'].to_filename(p2)
-                    state['p2'] = p2
-                    return NiftiWrapper.from_filename(p2).meta_ext
-
-                def raw_of(path):
-                    exts = [c for code, c in file_ext_bytes(path) if code == 0]
-                    return exts[0].decode('utf-8') if len(exts) == 1 else None
-                attempt(tag, first)
-                if 'p1' in state and 'err' not in obs['paths'][tag]:
-                    obs['paths'][tag]['file'] = raw_of(state['p1'])
-                if 'nw2' in state:
-                    attempt(tag + '2', second)
-                    if 'p2' in state and 'err' not in obs['paths'][tag + '2']:
-                        obs['paths'][tag + '2']['file'] = raw_of(state['p2'])
-                else:
-                    obs['paths'][tag + '2'] = {'err': 'skipped'}
+            attempt('json', lambda: observe_ext(DcmMetaExtension.from_json(text), snapshot, ext))
+            attempt('json_bytes', lambda: observe_ext(DcmMetaExtension.from_json(text.encode('utf-8')), snapshot, ext))
+            attempt('runtime', lambda: observe_ext(DcmMetaExtension.from_runtime_repr(copy.deepcopy(snapshot)), snapshot, ext))
+            ncyc = case.get('cycles', 2)
+            for fmt in case.get('formats', ['nii', 'niigz']):
+                suffix = FORMATS[fmt]
+                cls = nb.Nifti1Pair if fmt == 'pair' else nb.Nifti1Image
+                state = {'p': os.path.join(tmp, fmt + '0' + suffix)}
+                try:
+                    NiftiWrapper(make_image(case, ext)(cls)).to_filename(state['p'])
+                except Exception as e:
+                    obs['paths'][fmt + '#1'] = {'err': errname(e), 'msg': 'first write: ' + str(e)[:200]}
+                    continue
+                for k in range(1, ncyc + 1):
+                    def cycle():
+                        nwk = NiftiWrapper.from_filename(state['p'])
+                        r = observe_ext(nwk.meta_ext, snapshot, ext)
+                        r.update(observe_file(state['p'], snapshot))
+                        state['nw'] = nwk
+                        return r
+                    if not attempt('%s#%d' % (fmt, k), cycle) or k == ncyc:
+                        break
+                    try:
+                        # onto the loaded path only for .nii.gz: on an uncompressed file nibabel's memory-mapped data
+                        # proxy reads from the file being truncated (garbage voxels or SIGBUS) - reported, outside C09
+                        if not (case.get('same_path') and fmt == 'niigz'):
+                            state['p'] = os.path.join(tmp, '%s%d%s' % (fmt, k, suffix))
+                        state['nw'].to_filename(state['p'])
+                    except Exception as e:
+                        obs['paths']['%s#%d' % (fmt, k + 1)] = {'err': errname(e), 'msg': 'rewrite: ' + str(e)[:200]}
+                        break
+            return obs
+        except Harness as e:
+            return {'harness': str(e)}
         finally:
             shutil.rmtree(tmp, ignore_errors=True)
-        return obs
 
     @staticmethod
     def coq_case(case, obs):
-        def cerr(name):
-            return name if name in ERRMAP.values() else 'ECrash'
-        if not isinstance(obs, dict) or 'content' not in obs:
-            # the runner crashed outside the observed calls: a literal that cannot pass
+        if not isinstance(obs, dict) or 'pre' not in obs:
+            # the runner could not observe: a literal that cannot pass
             return ('{| Corr.ec_content := JNull; Corr.ec_valid := Ok tt; Corr.ec_to_json := Err ECrash; '
-                    'Corr.ec_str := (@nil N); Corr.ec_reser := [] |}')
-        valid = 'Ok tt' if obs['valid'] == 'ok' else 'Err %s' % cerr(obs['valid'])
-        # identical texts are written once and shared through let-bindings (the literal is the same term)
-        names, binds = {}, []
-
-        def text(s):
-            if not isinstance(s, str):
-                return '[0]%N'
-            if s not in names:
-                names[s] = 't%d' % len(names)
-                binds.append('let %s := %s in ' % (names[s], ctext(s)))
-            return names[s]
+                    'Corr.ec_str := None; Corr.ec_reser := []; Corr.ec_files := []; Corr.ec_loaded := [] |}')
+        binds, text, val = lit_shared()
         tj = obs['to_json']
-        tjs = ('Ok %s' % text(tj['ok'])) if 'ok' in tj else ('Err %s' % cerr(tj['err']))
-        st = text(obs['str'].get('ok'))
-        reser = []
-        if 'ok' in tj:
-            for p in PATHS:
-                reser.append(text(obs['paths'].get(p, {}).get('reser')))
-                if p.startswith('nii'):
-                    reser.append(text(obs['paths'].get(p, {}).get('file')))
-        return ('(%s{| Corr.ec_content := %s; Corr.ec_valid := %s; Corr.ec_to_json := %s; Corr.ec_str := %s; Corr.ec_reser := %s |})'
-                % (''.join(binds), tv_coq(obs['content']), valid, tjs, st, clist(reser)))
+        tjs = ('Ok %s' % text(tj['ok'])) if 'ok' in tj else 'Err EInvalidExt'
+        st = ('(Some %s)' % text(obs['str']['ok'])) if 'ok' in obs['str'] else 'None'
+        pre = val(obs['pre'])
+        reser, files, loaded = [], [], []
+        for name in sorted(obs.get('paths', {})):
+            r = obs['paths'][name]
+            if 'err' in r:
+                reser.append('[0]%N')
+                continue
+            reser.append(text(r.get('reser')))
+            loaded.append(pre if r.get('same') else val(r['content']))
+            if 'n_ext' in r:
+                files.append(text(r.get('file')))
+        return ('(%s{| Corr.ec_content := %s; Corr.ec_valid := %s; Corr.ec_to_json := %s; Corr.ec_str := %s; Corr.ec_reser := %s; '
+                'Corr.ec_files := %s; Corr.ec_loaded := %s |})'
+                % (''.join(binds), pre, coq_res_unit(obs['valid']), tjs, st, clist(reser), clist(files), clist(loaded)))
+
+    @staticmethod
+    def messages(case, obs):
+        if not isinstance(obs, dict):
+            return ['[crash] no observation']
+        if 'harness' in obs:
+            return ['[harness] %s' % obs['harness']]
+        if 'crash' in obs or 'pre' not in obs:
+            return ['[crash] building or observing the extension raised %s' % obs.get('crash')]
+        msgs = []
+        truth = truth_of_case(case)
+        if not match_truth(dec(obs['pre']), truth):
+            msgs.append('[build/truth] the content of the freshly built extension is not what the format prescribes for the case')
+        expect_valid = truth_valid(truth)
+        msgs += judge_serial(obs, obs['pre'], expect_valid)
+        if not expect_valid:
+            if obs.get('save') == 'ok' or obs.get('written'):
+                msgs.append('[to_filename/invalid-written] to_filename wrote an invalid extension')
+            return msgs
+        if 'ok' not in obs['to_json']:
+            return msgs
+        text = obs['to_json']['ok']
+        has_nan = tv_has_nan(obs['pre'])
+        expected = ['json', 'json_bytes', 'runtime'] + ['%s#%d' % (f, k) for f in case.get('formats', ['nii', 'niigz'])
+                                                        for k in range(1, case.get('cycles', 2) + 1)]
+        for name in expected:
+            where = name.split('#')[0]
+            r = obs['paths'].get(name)
+            if r is None:
+                if not any(m.startswith('[%s/raised]' % where) for m in msgs):
+                    msgs.append('[%s/raised] save/load cycle did not complete' % where)
+                continue
+            msgs += judge_reload(r, text, has_nan, where)
+        return msgs
 
     @staticmethod
     def oracle(case, obs):
-        if not isinstance(obs, dict) or 'content' not in obs:
-            return 'building or observing the extension crashed: %s' % (obs.get('crash') if isinstance(obs, dict) else obs)
-        tj = obs['to_json']
-        if case.get('corrupt'):
-            if 'ok' in tj:
-                return 'to_json accepted an invalid extension (%s)' % case['corrupt']
-            if tj['err'] != 'EInvalidExt':
-                return 'to_json of an invalid extension (%s) raised %s instead of InvalidExtensionError' % (case['corrupt'], tj['err'])
-            return None
-        if 'ok' not in tj:
-            return 'to_json failed on a valid extension: %s' % tj['err']
-        text = tj['ok']
-        if obs['str'].get('ok') != text:
-            return 'str(ext) is not the JSON of the extension: %s' % (obs['str'].get('err') or 'different text')
-        for p in PATHS:
-            r = obs['paths'].get(p)
-            if r is None or 'err' in r:
-                return 'reload via %s failed: %s' % (p, (r or {}).get('err'))
-            if not r.get('eq') and not tv_has_nan(obs['content']):      # NaN != NaN: == cannot hold, exactness below must
-                return 'reload via %s: extension not equal (==) to the original' % p
-            if p.startswith('nii') and r.get('file') != text:
-                return 'reload via %s: extension bytes stored in the file are not to_json() of the extension' % p
-            if not r.get('exact'):
-                return 'reload via %s: content differs (types, float bits, nesting or key order)' % p
-            if not r.get('order'):
-                return 'reload via %s: key order changed' % p
-            if r.get('reser') != text:
-                return 'reload via %s: re-serialised JSON is not byte-identical' % p
-            if not r.get('str_is_json'):
-                return 'reload via %s: str() of the reloaded extension is not its JSON' % p
-        return None
+        msgs = Ext.messages(case, obs)
+        return msgs[0] if msgs else None
 
     @staticmethod
     def signature(case, obs, msg):
-        return 'ext/' + msg.split(':')[0].replace(' ', '-')[:60]
+        return 'ext/' + msg_id(msg)
 
     @staticmethod
     def nontrivial(case, obs):
@@ -986,12 +1365,12 @@ class Ext:
     @staticmethod
     def shrink(case):
         ents = case['entries']
-        if case.get('extra'):
-            c = dict(case); c['extra'] = []
-            yield c
-        if case.get('reorient') is not None:
-            c = dict(case); c['reorient'] = None
-            yield c
+        for field, small in (('extra', []), ('stale', []), ('reorient', None), ('foreign', None), ('endian', '<'),
+                             ('same_path', False), ('cycles', 1), ('formats', ['nii']), ('formats', ['niigz']),
+                             ('build', 'make_empty')):
+            if case.get(field) != small and not (field == 'reorient' and case.get('version') == 0.5):
+                c = dict(case); c[field] = small
+                yield c
         for i in range(len(ents)):
             c = dict(case); c['entries'] = ents[:i] + ents[i + 1:]
             yield c
@@ -1006,7 +1385,7 @@ class Ext:
 
 
 # ------------------------------------------------------------------------------------------------
-# part 4: histories (encode/save -> edit in place -> save -> load; load -> edit -> save -> load; two edits)
+# part 4: histories (encode/save -> edit in place -> save -> load; load -> edit -> save -> load; several edits; a refused write)
 
 TOUCHES = ['to_filename', 'nbsave', 'content', 'get_content', 'sizeondisk', 'str', 'to_json', 'none']
 EDIT_KINDS = ['add_key', 'change_value', 'del_key', 'move_key', 'filter_meta', 'clear_slice_meta']
@@ -1020,8 +1399,7 @@ def gen_class_value(rng, shape, slice_dim, cls, depth=1):
 
 
 def gen_edit(rng, case, entries):
-    """One in-place edit that keeps the extension valid; `entries` (the generator's view of the current keys)
-    is updated."""
+    """One in-place edit that keeps the extension valid; `entries` (the generator's view of the current keys) is updated."""
     shape, sd = case['shape'], case['slice_dim']
     usable = [cl for cl in valid_classes(shape) if multiplicity(shape, sd, cl) >= 1]
     kind = rng.choice(EDIT_KINDS)
@@ -1031,7 +1409,7 @@ def gen_edit(rng, case, entries):
         kind = 'change_value'
     if kind == 'add_key':
         cl = rng.choice(usable)
-        k = gen_keys(rng, 1, {tuple(e[2]) for e in entries})[0]
+        k = gen_keys(rng, 1, {tuple(e[2]) for e in entries} | {(98, 97, 100)})[0]
         v = gen_class_value(rng, shape, sd, cl)
         entries.append([cl[0], cl[1], k, v])
         return {'op': 'set', 'cls': list(cl), 'key': k, 'val': v}
@@ -1061,8 +1439,7 @@ def gen_edit(rng, case, entries):
 
 
 def apply_edit(ext, ed):
-    def ks(cps):
-        return ''.join(chr(c) for c in cps)
+    """an edit through the DcmMeta API of the live object"""
     op = ed['op']
     if op == 'set':
         ext.get_class_dict(tuple(ed['cls']))[ks(ed['key'])] = dec(ed['val'])
@@ -1080,25 +1457,49 @@ def apply_edit(ext, ed):
         raise ValueError(op)
 
 
-def file_ext_bytes(path):
-    """The extension section of a single-file NIfTI-1, parsed from the raw bytes (no nibabel objects involved):
-    list of (ecode, content with the zero padding removed)."""
-    import gzip, struct
-    with (gzip.open(path, 'rb') if path.endswith('.gz') else open(path, 'rb')) as f:
-        data = f.read()
-    en = '<' if struct.unpack('<i', data[:4])[0] == 348 else '>'
-    vox_offset = int(struct.unpack(en + 'f', data[108:112])[0])
+def apply_edit_truth(t, ed, case):
+    """the same edit on the generator's truth (documented meaning of the API call)"""
+    op = ed['op']
+    vcs = valid_classes(case['shape'])
+    if op == 'set':
+        t[ed['cls'][0]][ed['cls'][1]][ks(ed['key'])] = dec(ed['val'])
+    elif op == 'del':
+        t[ed['cls'][0]][ed['cls'][1]].pop(ks(ed['key']), None)
+    elif op == 'move':
+        t[ed['cls'][0]][ed['cls'][1]].pop(ks(ed['key']), None)
+        t[ed['to'][0]][ed['to'][1]][ks(ed['key'])] = dec(ed['val'])
+    elif op == 'filter':
+        drop = set(ks(k) for k in ed['keys'])
+        for b, s in vcs:
+            for k in [k for k in t[b][s] if k in drop]:
+                del t[b][s][k]
+    elif op == 'clear_slices':
+        for b, s in vcs:
+            if s == 'slices':
+                t[b][s].clear()
+
+
+def hist_truths(case):
+    """generator truth at every write point"""
+    import copy
+    t = truth_initial(case)
     out = []
-    if len(data) < 352 or data[348] == 0:
-        return out
-    pos = 352
-    while pos + 8 <= vox_offset:
-        esize, ecode = struct.unpack(en + 'ii', data[pos:pos + 8])
-        if esize < 8 or pos + esize > len(data):
-            break
-        out.append((ecode, data[pos + 8:pos + esize].rstrip(b'\x00')))
-        pos += esize
+    for g in case['hist']['groups']:
+        for ed in g['edits']:
+            apply_edit_truth(t, ed, case)
+        out.append(copy.deepcopy(t))
     return out
+
+
+def hist_plan_ok(case):
+    """the plan is inside the domain: the initial extension is valid and each write point is valid exactly when its group
+    is not the announced invalidation"""
+    try:
+        if not truth_valid(truth_initial(case)):
+            return False
+        return all(truth_valid(t) == (not g.get('invalid')) for t, g in zip(hist_truths(case), case['hist']['groups']))
+    except (KeyError, TypeError, IndexError):
+        return False
 
 
 class Hist:
@@ -1108,12 +1509,15 @@ class Hist:
     CORR_CHECK = "Corr.check_hist"
     CORR_SHOW = "Corr.show_hist"
     SHARD = 8
-    IMPL_TIMEOUT = 60
+    IMPL_TIMEOUT = 90
     RULE = ("a valid extension attached to an image is first encoded or written (to_filename, nb.save, .content, get_content, "
             "get_sizeondisk, str, to_json, or nothing), or is obtained from a file with from_filename (and then optionally touched); it "
             "is then edited in place through the DcmMeta API (set/change/delete/move a key, filter_meta, clear_slice_meta) and "
-            "written again, once or twice, to .nii or .nii.gz; observation per write = content of the in-memory object, to_json, "
-            "str, the raw extension bytes parsed out of the file, and the extension NiftiWrapper.from_filename finds in the file")
+            "written again, 1-5 times, to .nii / .nii.gz / a pair, onto a fresh path or onto the path it was loaded from; one "
+            "history in four passes through an INVALID state (the write must be refused) and is repaired; the expected content "
+            "after every edit is computed from the case alone; observation per write = content of the in-memory object, "
+            "to_json, str, the extension bytes parsed out of the file, and the extension from_filename finds in the file. "
+            "non-trivial = some edit changed the content")
 
     @staticmethod
     def gen_cases(rng, tier):
@@ -1123,39 +1527,69 @@ class Hist:
             c = gen_ext_case(rng, 1, None, i % 3 == 2)
             mode = ['save_edit_save', 'load_edit_save'][i % 2]
             entries = [list(e) for e in c['entries']]
-            nedits = rng.choice([1, 1, 2, 2, 3])
-            # an edit is a group of 1-2 API calls; each group is followed by a write
-            groups = []
-            for _ in range(nedits):
-                groups.append([gen_edit(rng, c, entries) for _ in range(rng.choice([1, 1, 2]))])
-            c['hist'] = {'mode': mode, 'suffix': ['.nii', '.nii.gz'][(i // 2) % 2], 'touch': TOUCHES[(i // 4) % len(TOUCHES)],
-                         'edits': groups}
-            c['kind'] = 'hist/%s/%s/%d' % (mode, c['hist']['touch'], nedits)
+            nw = rng.choice([1, 1, 2, 2, 3, 4, 5])
+            groups = [{'edits': [gen_edit(rng, c, entries) for _ in range(rng.choice([1, 1, 2]))], 'invalid': False}
+                      for _ in range(nw)]
+            shape, sd = c['shape'], c['slice_dim']
+            if i % 4 == 3:
+                # an invalidating edit (wrong number of values, or the same key in two classes), refused, then repaired
+                usable = [cl for cl in valid_classes(shape) if multiplicity(shape, sd, cl) >= 1]
+                many = [cl for cl in usable if multiplicity(shape, sd, cl) > 1]
+                at = rng.randrange(len(groups) + 1)
+                bad = [98, 97, 100]
+                if many:
+                    cl = rng.choice(many)
+                    m = multiplicity(shape, sd, cl)
+                    brk = {'op': 'set', 'cls': list(cl), 'key': bad, 'val': ['a', [['i', '0']] * (m + 1)]}
+                    fix = {'op': 'del', 'cls': list(cl), 'key': bad}
+                elif len(usable) >= 2:
+                    a, b = usable[0], usable[1]
+                    brk = {'op': 'set', 'cls': list(a), 'key': bad, 'val': gen_class_value(rng, shape, sd, a)}
+                    groups.insert(at, {'edits': [brk], 'invalid': False})
+                    at += 1
+                    brk = {'op': 'set', 'cls': list(b), 'key': bad, 'val': gen_class_value(rng, shape, sd, b)}
+                    fix = {'op': 'del', 'cls': list(b), 'key': bad}
+                else:
+                    brk = None
+                if brk:
+                    groups.insert(at, {'edits': [brk], 'invalid': True})
+                    groups.insert(at + 1, {'edits': [fix], 'invalid': False})
+            fmt = ['nii', 'niigz', 'nii', 'niigz', 'pair'][(i // 2) % 5]
+            c['hist'] = {'mode': mode, 'fmt': fmt, 'touch': TOUCHES[(i // 4) % len(TOUCHES)], 'groups': groups,
+                         'same_path': mode == 'load_edit_save' and fmt == 'niigz' and rng.random() < 0.6,
+                         'reload_every': rng.choice([0, 1, 2])}
+            c['kind'] = 'hist/%s/%s/%s%s' % (mode, fmt, c['hist']['touch'], '/refusal' if any(g['invalid'] for g in groups) else '')
+            if not hist_plan_ok(c):                      # cannot happen unless a random key collides with the reserved one
+                c['hist']['groups'] = [g for g in groups if not g['invalid'] and not any(e.get('key') == [98, 97, 100] for e in g['edits'])]
+                c['kind'] = 'hist/%s/%s/%s' % (mode, fmt, c['hist']['touch'])
+                if not c['hist']['groups'] or not hist_plan_ok(c):
+                    continue
             out.append(c)
         return out
 
     @staticmethod
     def run_impl(case):
         import copy, shutil, tempfile
-        import numpy as np
         import nibabel as nb
-        from dcmstack.dcmmeta import NiftiWrapper, dcm_meta_ecode
+        from dcmstack.dcmmeta import NiftiWrapper
         h = case['hist']
-        ext = build_ext(case)
-        img = nb.Nifti1Image(np.zeros(tuple(case['shape']), dtype=np.int16), np.array(ext.affine))
-        img.header.extensions.append(ext)
-        nw = NiftiWrapper(img)
-        obs = {'initial': enc(ext._content), 'points': []}
-        base = os.environ.get('VERIF_WORK') or os.path.join('/verif', 'work')
+        suffix = FORMATS[h['fmt']]
+        cls = nb.Nifti1Pair if h['fmt'] == 'pair' else nb.Nifti1Image
+        base = os.environ.get('VERIF_WORK') or os.path.join('/verif', 'work', 'c09_manual')
         os.makedirs(base, exist_ok=True)
         tmp = tempfile.mkdtemp(prefix='c09h_', dir=base)
         try:
+            ext = build_ext(case)
+            obs = {'initial': enc(copy.deepcopy(content_of(ext))), 'points': []}
+            nw = NiftiWrapper(make_image(case, ext)(cls))
+            loaded_from = None
+
             def touch(w, name):
                 e = w.meta_ext
                 if name == 'to_filename':
-                    w.to_filename(os.path.join(tmp, 'touch' + h['suffix']))
+                    w.to_filename(os.path.join(tmp, 'touch' + suffix))
                 elif name == 'nbsave':
-                    nb.save(w.nii_img, os.path.join(tmp, 'touch' + h['suffix']))
+                    nb.save(w.nii_img, os.path.join(tmp, 'touch' + suffix))
                 elif name == 'content':
                     e.content
                 elif name == 'get_content':
@@ -1167,174 +1601,157 @@ class Hist:
                 elif name == 'to_json':
                     e.to_json()
             if h['mode'] == 'load_edit_save':
-                p0 = os.path.join(tmp, 'orig' + h['suffix'])
-                nw.to_filename(p0)
-                nw = NiftiWrapper.from_filename(p0)
-                obs['initial'] = enc(nw.meta_ext._content)
+                loaded_from = os.path.join(tmp, 'orig' + suffix)
+                nw.to_filename(loaded_from)
+                nw = NiftiWrapper.from_filename(loaded_from)
             touch(nw, h['touch'])
             obs['touched'] = h['touch'] != 'none' or h['mode'] == 'load_edit_save'
-            for gi, group in enumerate(h['edits']):
+            for gi, group in enumerate(h['groups']):
                 cur = nw.meta_ext
-                for ed in group:
+                for ed in group['edits']:
                     apply_edit(cur, ed)
-                pt = {'cur': enc(cur._content)}
-                try:
-                    cur.check_valid()
-                    pt['valid'] = 'ok'
-                except Exception as e:
-                    pt['valid'] = errname(e)
-                try:
-                    text = cur.to_json()
-                    pt['to_json'] = {'ok': text}
-                except Exception as e:
-                    text = None
-                    pt['to_json'] = {'err': errname(e)}
-                try:
-                    pt['str'] = {'ok': str(cur)}
-                except Exception as e:
-                    pt['str'] = {'err': errname(e)}
-                p = os.path.join(tmp, 'w%d%s' % (gi, h['suffix']))
+                snapshot = copy.deepcopy(content_of(cur))           # BEFORE any serialisation call
+                pt = {'cur': enc(snapshot)}
+                text = serial_obs(cur, pt)
+                pt['post_same'] = same(content_of(cur), snapshot)
+                same_path = bool(h.get('same_path') and loaded_from and h['fmt'] == 'niigz')
+                p = loaded_from if same_path else os.path.join(tmp, 'w%d%s' % (gi, suffix))
+                before = None
+                if same_path:
+                    before = [c for code, c in file_ext_bytes(p) if code == DCMMETA_ECODE]
                 try:
                     nw.to_filename(p)
                     pt['save'] = 'ok'
                 except Exception as e:
                     pt['save'] = errname(e)
                 if pt['save'] == 'ok':
-                    exts = [c for code, c in file_ext_bytes(p) if code == dcm_meta_ecode]
-                    pt['n_ext'] = len(exts)
-                    pt['file_bytes'] = exts[0].decode('latin-1') if exts else None     # byte values as code points
+                    pt.update(observe_file(p, snapshot))
                     try:
-                        pt['file'] = exts[0].decode('utf-8') if exts else None
-                    except UnicodeDecodeError:
-                        pt['file'] = None
-                    try:
-                        e2 = NiftiWrapper.from_filename(p).meta_ext
-                        snapshot = copy.deepcopy(cur._content)
-                        r = {'content': enc(e2._content), 'eq': bool(e2 == cur) and bool(cur == e2),
-                             'exact': same(e2._content, snapshot), 'order': key_orders(e2._content) == key_orders(snapshot)}
-                        try:
-                            r['reser'] = e2.to_json()
-                        except Exception as e:
-                            r['reser_err'] = errname(e)
-                        # what the in-memory object says about itself after the write must still be the same
-                        r['mem_after'] = (cur.to_json() == text) if text is not None else False
+                        nw2 = NiftiWrapper.from_filename(p)
+                        r = observe_ext(nw2.meta_ext, snapshot, cur)
+                        r['mem_after'] = same(content_of(cur), snapshot)
                         pt['reload'] = r
+                        if same_path or (h.get('reload_every') and (gi + 1) % h['reload_every'] == 0):
+                            # continue the history from the file just written (always after writing onto the path the
+                            # image was loaded from: nibabel's lazy data proxy of the old image is stale after that)
+                            nw, loaded_from = nw2, p
+                    except Harness:
+                        raise
                     except Exception as e:
                         pt['reload'] = {'err': errname(e), 'msg': str(e)[:200]}
+                else:
+                    if same_path:
+                        pt['written'] = [c for code, c in file_ext_bytes(p) if code == DCMMETA_ECODE] != before
+                    else:
+                        pt['written'] = os.path.exists(p)
                 obs['points'].append(pt)
-                if h['mode'] == 'load_edit_save' and gi % 2 == 1 and pt.get('save') == 'ok':
-                    # continue the history from the file just written
-                    try:
-                        nw = NiftiWrapper.from_filename(p)
-                    except Exception:
-                        pass
+            return obs
+        except Harness as e:
+            return {'harness': str(e)}
         finally:
             shutil.rmtree(tmp, ignore_errors=True)
-        return obs
 
     @staticmethod
     def coq_case(case, obs):
-        def cerr(name):
-            return name if name in ERRMAP.values() else 'ECrash'
         if not isinstance(obs, dict) or 'points' not in obs:
             return '{| Corr.hc_initial := JNull; Corr.hc_touched := false; Corr.hc_points := [] |}'
-        names, binds = {}, []
-
-        def share(key, lit):
-            if key not in names:
-                names[key] = 'x%d' % len(names)
-                binds.append('let %s := %s in ' % (names[key], lit))
-            return names[key]
-
-        def text(s):
-            return share('T' + s, ctext(s)) if isinstance(s, str) else '[0]%N'
-
-        def val(tv):
-            return share('V' + json.dumps(tv), tv_coq(tv))
+        binds, text, val = lit_shared()
         pts = []
         for pt in obs['points']:
-            valid = 'Ok tt' if pt['valid'] == 'ok' else 'Err %s' % cerr(pt['valid'])
             tj = pt['to_json']
-            tjs = ('Ok %s' % text(tj['ok'])) if 'ok' in tj else ('Err %s' % cerr(tj['err']))
-            st = text(pt['str'].get('ok'))
-            fl = '(Some %s)' % text(pt.get('file_bytes')) if pt.get('save') == 'ok' else 'None'
-            rl = pt.get('reload') or {'err': 'ECrash'}
-            ld = ('Ok %s' % val(rl['content'])) if 'content' in rl else ('Err %s' % cerr(rl.get('err', 'ECrash')))
+            tjs = ('Ok %s' % text(tj['ok'])) if 'ok' in tj else 'Err EInvalidExt'
+            st = ('(Some %s)' % text(pt['str']['ok'])) if 'ok' in pt['str'] else 'None'
+            cur = val(pt['cur'])
+            fl = '(Some %s)' % text(pt.get('file')) if pt.get('save') == 'ok' else 'None'
+            rl = pt.get('reload') or {'err': 'x'}
+            if 'err' in rl:
+                ld = 'Err ECrash'
+            else:
+                ld = 'Ok %s' % (cur if rl.get('same') else val(rl['content']))
             pts.append('{| Corr.sp_content := %s; Corr.sp_valid := %s; Corr.sp_to_json := %s; Corr.sp_str := %s; '
-                       'Corr.sp_file := %s; Corr.sp_loaded := %s |}' % (val(pt['cur']), valid, tjs, st, fl, ld))
+                       'Corr.sp_file := %s; Corr.sp_loaded := %s |}' % (cur, coq_res_unit(pt['valid']), tjs, st, fl, ld))
         init = val(obs['initial'])
         return ('(%s{| Corr.hc_initial := %s; Corr.hc_touched := %s; Corr.hc_points := %s |})'
                 % (''.join(binds), init, cbool(bool(obs.get('touched'))), clist(pts)))
 
     @staticmethod
-    def oracle(case, obs):
-        if not isinstance(obs, dict) or 'points' not in obs:
-            return 'history crashed: %s' % (obs.get('crash') if isinstance(obs, dict) else obs)
-        if len(obs['points']) != len(case['hist']['edits']):
-            return 'history stopped early'
-        for i, pt in enumerate(obs['points']):
-            w = 'write %d after in-place edit' % (i + 1)
+    def messages(case, obs):
+        if not isinstance(obs, dict):
+            return ['[crash] no observation']
+        if 'harness' in obs:
+            return ['[harness] %s' % obs['harness']]
+        if 'crash' in obs or 'points' not in obs:
+            return ['[crash] the history raised %s' % obs.get('crash')]
+        msgs = []
+        if not match_truth(dec(obs['initial']), truth_initial(case)):
+            msgs.append('[build/truth] the content of the freshly built extension is not what the format prescribes for the case')
+        truths = hist_truths(case)
+        if len(obs['points']) != len(truths):
+            msgs.append('[crash] history stopped early')
+        for pt, truth, g in zip(obs['points'], truths, case['hist']['groups']):
+            if not match_truth(dec(pt['cur']), truth):
+                msgs.append('[edit/truth] after the in-place edit the content of the extension is not what the edit means')
+            ok = not g.get('invalid')
+            msgs += judge_serial(pt, pt['cur'], ok, 'write/')
+            if not ok:
+                if pt.get('save') == 'ok' or pt.get('written'):
+                    msgs.append('[write/invalid-written] to_filename wrote an invalid extension')
+                continue
             if 'ok' not in pt['to_json']:
-                return '%s: to_json failed on the edited (valid) extension: %s' % (w, pt['to_json']['err'])
-            text = pt['to_json']['ok']
-            if pt['str'].get('ok') != text:
-                return '%s: str(ext) is not the JSON of the edited extension' % w
+                continue
             if pt.get('save') != 'ok':
-                return '%s: to_filename failed: %s' % (w, pt.get('save'))
-            if pt.get('n_ext') != 1:
-                return '%s: file holds %s DcmMeta extensions' % (w, pt.get('n_ext'))
-            if pt.get('file') != text:
-                return '%s: extension bytes stored in the file are not to_json() of the in-memory extension' % w
-            r = pt.get('reload') or {}
-            if 'err' in r:
-                return '%s: reading the file back failed: %s' % (w, r['err'])
-            if not r.get('eq') and not tv_has_nan(pt['cur']):
-                return '%s: extension read back is not equal (==) to the edited in-memory extension' % w
-            if not r.get('exact') or not r.get('order'):
-                return '%s: extension read back differs from the edited in-memory extension (keys, classes, values or order)' % w
-            if r.get('reser') != text:
-                return '%s: re-serialised JSON of the extension read back is not byte-identical' % w
-            if not r.get('mem_after'):
-                return '%s: to_json of the in-memory extension changed by writing it' % w
-        return None
+                msgs.append('[write/raised] to_filename failed on a valid edited extension: %s' % pt.get('save'))
+                continue
+            r = dict(pt.get('reload') or {'err': 'missing'})
+            if 'err' not in r:
+                r.update({k: pt[k] for k in ('n_ext', 'file_same') if k in pt})
+            msgs += judge_reload(r, pt['to_json']['ok'], tv_has_nan(pt['cur']), 'write')
+            if 'err' not in r and not r.get('mem_after'):
+                msgs.append('[write/mem-after] writing changed the content of the in-memory extension')
+        return msgs
+
+    @staticmethod
+    def oracle(case, obs):
+        msgs = Hist.messages(case, obs)
+        return msgs[0] if msgs else None
 
     @staticmethod
     def signature(case, obs, msg):
-        return 'hist/' + msg.split(':', 1)[-1].strip().replace(' ', '-')[:60]
+        return 'hist/' + msg_id(msg)
 
     @staticmethod
     def nontrivial(case, obs):
-        return True
+        # some edit changed the content (generator truth)
+        prev = truth_initial(case)
+        for t in hist_truths(case):
+            if not same(t, prev):
+                return True
+            prev = t
+        return False
 
     @staticmethod
     def shrink(case):
         h = case['hist']
-        used = set()
-        for g in h['edits']:
-            for ed in g:
-                if 'key' in ed:
-                    used.add(tuple(ed['key']))
-                for k in ed.get('keys', []):
-                    used.add(tuple(k))
-        if len(h['edits']) > 1:
-            for i in range(len(h['edits'])):
-                c = dict(case); c['hist'] = dict(h, edits=h['edits'][:i] + h['edits'][i + 1:])
-                yield c
-        for i, g in enumerate(h['edits']):
-            if len(g) > 1:
-                for j in range(len(g)):
-                    c = dict(case); c['hist'] = dict(h, edits=h['edits'][:i] + [g[:j] + g[j + 1:]] + h['edits'][i + 1:])
-                    yield c
-        if case.get('extra'):
-            c = dict(case); c['extra'] = []
-            yield c
-        if case.get('reorient') is not None:
-            c = dict(case); c['reorient'] = None
-            yield c
+        cands = []
+        groups = h['groups']
+        for i in range(len(groups)):
+            cands.append(dict(case, hist=dict(h, groups=groups[:i] + groups[i + 1:])))
+        for i, g in enumerate(groups):
+            for j in range(len(g['edits'])):
+                if len(g['edits']) > 1:
+                    g2 = dict(g, edits=g['edits'][:j] + g['edits'][j + 1:])
+                    cands.append(dict(case, hist=dict(h, groups=groups[:i] + [g2] + groups[i + 1:])))
+        for field, small in (('extra', []), ('stale', []), ('reorient', None), ('foreign', None), ('endian', '<')):
+            if case.get(field) != small and not (field == 'reorient' and case.get('version') == 0.5):
+                cands.append(dict(case, **{field: small}))
+        for field, small in (('same_path', False), ('reload_every', 0), ('touch', 'none')):
+            if h.get(field) != small:
+                cands.append(dict(case, hist=dict(h, **{field: small})))
         ents = case['entries']
         for i in range(len(ents)):
-            if tuple(ents[i][2]) not in used:
-                c = dict(case); c['entries'] = ents[:i] + ents[i + 1:]
+            cands.append(dict(case, entries=ents[:i] + ents[i + 1:]))
+        for c in cands:
+            if c['hist']['groups'] and hist_plan_ok(c):        # stay inside the valid domain
                 yield c
 
 
